@@ -87,6 +87,26 @@ M = [
  ("e ValidateBlockBytes", "keep", "rename variables", "m, err := ValidateStrListBytes(b[off:])\n\t\tif err != nil {\n\t\t\treturn err\n\t\t}\n\t\toff += m\n", "size, e := ValidateStrListBytes(b[off:])\n\t\tif e != nil {\n\t\t\treturn e\n\t\t}\n\t\toff += size\n"),
  ("e ValidateBlockBytes", "keep", "off = off + m", "off += m\n", "off = off + m\n"),
  ("e ValidateBlockBytes", "keep", "off := 4 instead of var/+=", "var off int\n\tif len(b) < 4 {\n\t\treturn fmt.Errorf(\"invalid block\")\n\t}\n\tn := int(binary.BigEndian.Uint32(b))\n\toff += 4", "if len(b) < 4 {\n\t\treturn fmt.Errorf(\"invalid block\")\n\t}\n\tn := int(binary.BigEndian.Uint32(b))\n\toff := 4"),
+ ("f findOverlappingBlocks", "break", "start = j - 1 becomes start = j", "\t\t\t\t\tstart = j - 1\n", "\t\t\t\t\tstart = j\n"),
+ ("f findOverlappingBlocks", "break", "drop the n == 0 guard", "\tn := len(tblIdx2)\n\tif n == 0 {\n\t\treturn 0, 0\n\t}\n", "\tn := len(tblIdx2)\n"),
+ ("f findOverlappingBlocks", "break", "findStart: > becomes >=", "\t\tfor k, s := range tblIdx1[off1] {\n\t\t\tif tblIdx2[j][k] > s {", "\t\tfor k, s := range tblIdx1[off1] {\n\t\t\tif tblIdx2[j][k] >= s {"),
+ ("f findOverlappingBlocks", "break", "findStart begins at prevEnd", "for j := prevEnd - 1; j < n; j++ {", "for j := prevEnd; j < n; j++ {"),
+ ("f findOverlappingBlocks", "break", "continue findStart becomes break", "continue findStart", "break findStart"),
+ ("f findOverlappingBlocks", "break", "findEnd also for the last block", "if off1 < len(tblIdx1)-1 {", "if off1 < len(tblIdx1) {"),
+ ("f findOverlappingBlocks", "break", "findEnd: end = j + 1 on >", "\t\t\t\tif tblIdx2[j][k] > s {\n\t\t\t\t\tend = j\n", "\t\t\t\tif tblIdx2[j][k] > s {\n\t\t\t\t\tend = j + 1\n"),
+ ("f findOverlappingBlocks", "keep", "rename labels and loop variables", None, [("findStart", "scanLo"), ("findEnd", "scanHi"), ("for k, s := range tblIdx1[off1] {\n\t\t\tif tblIdx2[j][k] > s {", "for col, cell := range tblIdx1[off1] {\n\t\t\tif tblIdx2[j][col] > cell {"), ("\t\t\t} else if tblIdx2[j][k] < s {\n\t\t\t\tcontinue scanLo", "\t\t\t} else if tblIdx2[j][col] < cell {\n\t\t\t\tcontinue scanLo")]),
+ ("f findOverlappingBlocks", "keep", "prevEnd++ becomes prevEnd = 1", "\t\tprevEnd++\n", "\t\tprevEnd = 1\n"),
+ ("f findOverlappingBlocks", "keep", "if j != 0 with swapped branches", "\t\t\t\tif j == 0 {\n\t\t\t\t\tstart = j\n\t\t\t\t} else {\n\t\t\t\t\tstart = j - 1\n\t\t\t\t}", "\t\t\t\tif j != 0 {\n\t\t\t\t\tstart = j - 1\n\t\t\t\t} else {\n\t\t\t\t\tstart = j\n\t\t\t\t}"),
+ ("f findOverlappingBlocks", "keep", "else-if becomes a second if (findEnd)", "\t\t\t\t\tbreak findEnd\n\t\t\t\t} else if tblIdx2[j][k] < s {", "\t\t\t\t\tbreak findEnd\n\t\t\t\t}\n\t\t\t\tif tblIdx2[j][k] < s {"),
+ ("g KeyIndices", "break", "continue becomes break (first match only)", "\t\t\t\tfound = true\n\t\t\t\tcontinue\n", "\t\t\t\tfound = true\n\t\t\t\tbreak\n"),
+ ("g KeyIndices", "break", "drop the duplicate-key check", "\t\t\t\tif _, ok := seen[i]; ok {\n\t\t\t\t\treturn nil, fmt.Errorf(`key \"%s\" is specified more than once`, k)\n\t\t\t\t}\n", ""),
+ ("g KeyIndices", "break", "c == k becomes c != k", "\t\t\tif c == k {\n\t\t\t\tif _, ok := seen[i]; ok {", "\t\t\tif c != k {\n\t\t\t\tif _, ok := seen[i]; ok {"),
+ ("g KeyIndices", "break", "not-found test inverted", "\t\tif !found {\n", "\t\tif found {\n"),
+ ("g KeyIndices", "break", "append i+1", "res = append(res, uint32(i))", "res = append(res, uint32(i+1))"),
+ ("g KeyIndices", "keep", "rename variables", None, [("seen := map[int]struct{}{}", "taken := map[int]struct{}{}"), ("if _, ok := seen[i]; ok {", "if _, dup := taken[i]; dup {"), ("seen[i] = struct{}{}", "taken[i] = struct{}{}")]),
+ ("g KeyIndices", "keep", "comma-ok as a separate statement", "\t\t\t\tif _, ok := seen[i]; ok {\n", "\t\t\t\t_, ok := seen[i]\n\t\t\t\tif ok {\n"),
+ ("g KeyIndices", "keep", "found = true before the append", "\t\t\t\tres = append(res, uint32(i))\n\t\t\t\tfound = true\n", "\t\t\t\tfound = true\n\t\t\t\tres = append(res, uint32(i))\n"),
+ ("g KeyIndices", "keep", "k == c for c == k", "\t\t\tif c == k {\n\t\t\t\tif _, ok := seen[i]; ok {", "\t\t\tif k == c {\n\t\t\t\tif _, ok := seen[i]; ok {"),
 ]
 def sh(cmd, cwd=None, timeout=900):
     t0 = time.time()
@@ -138,10 +158,20 @@ for (k, kind, desc, old, new) in M:
         continue
     path = os.path.join(REPO, K[k][0])
     orig = open(path).read()
-    if orig.count(old) != 1:
-        rows.append((k, kind, desc, "EDIT-DOES-NOT-APPLY (%d matches)" % orig.count(old))); bad += 1
-        continue
-    open(path, "w").write(orig.replace(old, new))
+    if old is None:          # several textual replacements (each must occur at least once)
+        txt, okk = orig, True
+        for (o1, n1) in new:
+            okk = okk and txt.count(o1) >= 1
+            txt = txt.replace(o1, n1)
+        if not okk:
+            rows.append((k, kind, desc, "EDIT-DOES-NOT-APPLY")); bad += 1
+            continue
+        open(path, "w").write(txt)
+    else:
+        if orig.count(old) != 1:
+            rows.append((k, kind, desc, "EDIT-DOES-NOT-APPLY (%d matches)" % orig.count(old))); bad += 1
+            continue
+        open(path, "w").write(orig.replace(old, new))
     try:
         ok, gout = gobuild(K[k][0])
         if not ok:
